@@ -128,6 +128,9 @@ impl<T> Future for PollThenDrop<'_, T> {
 thread_local! {
     /// join futures kept alive by `JoinStash` (dropped when the case is torn down)
     static STASH: RefCell<Vec<Pin<Box<dyn Future<Output = ()>>>>> = const { RefCell::new(Vec::new()) };
+    /// join futures created (and not polled) before a detach: (client, actor, future)
+    #[allow(clippy::type_complexity)]
+    static LAZY: RefCell<Vec<(usize, ActorId, Pin<Box<dyn Future<Output = Option<FinalValue>>>>)>> = const { RefCell::new(Vec::new()) };
 }
 
 /// polls the inner future `extra` times more than it is woken
@@ -352,6 +355,7 @@ pub fn run_case(case: &Case) -> RunOutput {
     // ---- teardown
     cx.log(EvKind::Phase(Phase::Teardown));
     STASH.with(|s| s.borrow_mut().clear());
+    LAZY.with(|s| s.borrow_mut().clear());
     // stuck clients are cancelled first (so that their tables can be emptied below)
     for t in sim.alive_tasks() {
         if let TaskTag::Client(_) = sim.tag_of(t) {
@@ -935,6 +939,49 @@ async fn exec_op(me: usize, opi: usize, op: &ClientOp, table: &mut Table, all: &
                 },
                 polls,
             );
+        }
+        ClientOp::JoinLazyDetach { h } => {
+            let i = need!(me, opi, table, *h, |k| k == K::Owning);
+            let mut held = table[i].take().unwrap();
+            begin(me, opi, OpWhat::Detach, Some(&held), None);
+            let (actor, id) = (held.actor, held.id);
+            let H::Owning(o) = &mut held.h else { unreachable!() };
+            let f: Pin<Box<dyn Future<Output = Option<FinalValue>>>> = match o {
+                AnyOwning::A0(o) => {
+                    let f = o.join();
+                    Box::pin(async move { f.await.map(|p| p.final_value()) })
+                }
+                AnyOwning::A1(o) => {
+                    let f = o.join();
+                    Box::pin(async move { f.await.map(|p| p.final_value()) })
+                }
+            };
+            LAZY.with(|s| s.borrow_mut().push((me, actor, f)));
+            let H::Owning(o) = held.h else { unreachable!() };
+            let a = on_any!(o, AnyOwning, o => AnyAddr::from(o.detach()));
+            log(EvKind::HandleDrop { client: Some(me), actor, kind: K::Owning, id });
+            table.push(Some(new_held(Some(me), actor, H::Addr(a))));
+            end(me, opi, OpRes::Made(K::Addr), 0);
+        }
+        ClientOp::AwaitLazy => {
+            let taken = LAZY.with(|s| {
+                let mut v = s.borrow_mut();
+                v.iter().position(|x| x.0 == me).map(|p| v.remove(p))
+            });
+            let Some((_, actor, f)) = taken else {
+                log(EvKind::OpSkip { client: me, op: opi });
+                return;
+            };
+            CUR_OPS.with(|c| {
+                let mut v = c.borrow_mut();
+                if v.len() <= me {
+                    v.resize(me + 1, 0);
+                }
+                v[me] = opi;
+            });
+            log(EvKind::OpBegin { client: me, op: opi, what: OpWhat::Join, actor: Some(actor), via: Some(K::Owning), msg: None });
+            let (r, polls) = counted(f).await;
+            end(me, opi, OpRes::Joined(r), polls);
         }
         ClientOp::Detach { h } => {
             let i = need!(me, opi, table, *h, |k| k == K::Owning);
